@@ -98,6 +98,7 @@ template <class T> struct Blk
    std::vector<T> vec() const { return std::vector<T>(p, p + n); }
 };
 static uint64_t g_blocks = 0;
+static uint64_t g_storedLonger = 0;   // array getter called while the stored solution vector is longer than the LP dimension
 
 static std::string hexd(double x) { char b[40]; snprintf(b, sizeof b, "%a", x); return b; }
 static std::string numd(double x)
@@ -692,11 +693,10 @@ static void apply(const Op& op, void*& h, std::unique_ptr<SoPlex>& mp, const St&
    {
       int need = op.fn == GET_DUAL_REAL ? s.m : s.n;
       int dim = need + (v ? 2 : 0);
-      // SoPlexBase::getPrimalReal/getDualReal/getRedCostReal(R*, int) test "dim >= numCols()" but copy the WHOLE stored solution vector.  After a
-      // rational solve that ends INFEASIBLE/UNBOUNDED the stored vectors keep the dimension of the transformed LP (numCols()+1 ...), so the C
-      // function - like the C++ call - writes past an array of exactly dim entries.  Executing that would corrupt the heap of the worker (and
-      // ASan reports a faulty instruction only once per process), so the call is not made: the length the getter is going to copy is read
-      // from the mirror and the overflow is recorded as the verdict.  Reproduced standalone through the C interface (see known_findings.json).
+      // After a rational solve that ends INFEASIBLE/UNBOUNDED the stored solution vectors keep the dimension of the transformed LP (numCols()+1 ...).  The
+      // array getters used to copy the whole stored vector (one value behind an array of exactly dim entries; repaired in /repo, see known_findings.json:
+      // KF-C20-real-getters-overflow-after-infeasible-rational-solve).  The call is executed on an exact-length block, so a return of that defect is an
+      // AddressSanitizer report attributed to this call; how often the situation is reached is counted.
       {
          int stored = -1;
          if(M.hasSol())
@@ -704,14 +704,7 @@ static void apply(const Op& op, void*& h, std::unique_ptr<SoPlex>& mp, const St&
             if(M._hasSolReal) stored = op.fn == GET_PRIMAL_REAL ? M._solReal._primal.dim() : op.fn == GET_DUAL_REAL ? M._solReal._dual.dim() : M._solReal._redCost.dim();
             else if(M._hasSolRational) stored = op.fn == GET_PRIMAL_REAL ? M._solRational._primal.dim() : op.fn == GET_DUAL_REAL ? M._solRational._dual.dim() : M._solRational._redCost.dim();
          }
-         if(stored > dim)
-         {
-            P << "dim=" << dim << ") not executed";
-            st.compared++;
-            st.mismatch("getter-writes-past-caller-array", std::string("the call would copy ") + std::to_string(stored) + " values into the caller's array of dim=" + std::to_string(dim)
-                        + " entries (" + std::to_string(need) + " are needed): the stored solution vector is longer than the LP dimension (status " + std::to_string((int)M.status()) + ")");
-            break;
-         }
+         if(stored > dim) g_storedLonger++;
       }
       Blk<double> out(dim, -777.25); g_blocks++;
       std::vector<double> exp(dim, -777.25);
@@ -1229,6 +1222,7 @@ static SeqResult run_seq(const Seq& q, Ctx& c, uint64_t beforeHash = 0)
          c.sample("{\"sequence\":" + jstr(trace) + ",\"case\":" + jstr(q.str()) + "}");
    }
    if(g_blocks) { c.count("blocks", g_blocks); g_blocks = 0; }
+   if(g_storedLonger) { c.count("array_getter_calls_with_stored_vector_longer_than_lp", g_storedLonger); g_storedLonger = 0; }
    if(!dead)
    {
       res.st = state_of(*mp);
@@ -1440,12 +1434,7 @@ int main(int argc, char** argv)
       if(sub % 1000000) s.ops.push_back(opdecode(sub % 1000000));
       return s;
    };
-   rep.phase("histories depth<=" + std::to_string(depth), NI + firsts.size(), fn,
-             [&](uint64_t idx, uint64_t sub) { return seq_at(idx, sub).str(); }, o,
-             [&](uint64_t idx, uint64_t sub) { Seq s = seq_at(idx, sub); return s.ops.empty() ? std::string("@init") : std::string("@") + FNAME[s.ops.back().fn] + "[" + vlabel(s.ops.back()) + "]"; });
-
-   if(rep.all.counters.count("subtrees_cut_by_the_deadline")) rep.exhaustive = false;
-
+   // (runs first: it is cheap and must not be starved when the histories use up the budget)
    // parameter-code sweep: every bool / int / real parameter code with boundary values, then every SoPlex_getIntParam code
    std::vector<Op> sw = sweep_ops(), sg = sweep_get_ops();
    auto fn2 = [&](uint64_t idx, int, Ctx & c) -> uint64_t
@@ -1478,6 +1467,11 @@ int main(int argc, char** argv)
    rep.phase("parameter-code sweep", (uint64_t)NINIT * sw.size(), fn2, [&](uint64_t idx, uint64_t sub) { return seq2_at(idx, sub).str(); }, o,
              [&](uint64_t idx, uint64_t sub) { Seq s = seq2_at(idx, sub); return std::string("@") + FNAME[s.ops.back().fn] + "[sweep]"; });
 
+   rep.phase("histories depth<=" + std::to_string(depth), NI + firsts.size(), fn,
+             [&](uint64_t idx, uint64_t sub) { return seq_at(idx, sub).str(); }, o,
+             [&](uint64_t idx, uint64_t sub) { Seq s = seq_at(idx, sub); return s.ops.empty() ? std::string("@init") : std::string("@") + FNAME[s.ops.back().fn] + "[" + vlabel(s.ops.back()) + "]"; });
+
+   if(rep.all.counters.count("subtrees_cut_by_the_deadline")) rep.exhaustive = false;
    int reached = 0;
    for(int f = 0; f < NFN; ++f) if(rep.all.counters.count(std::string("fn.") + FNAME[f])) ++reached;
    rep.evaluations = rep.all.counters["sequences"] + rep.all.counters["init_states_checked"];
